@@ -812,7 +812,9 @@ func genOmniFresh(r *rand.Rand, i int) J {
 		c["repr"] = repr
 	}
 	if r.Intn(4) == 0 {
-		c["spell"] = J{"sp": bs(pick(r, []string{"  ", "\n", "\t", " \n "})), "tight": r.Intn(3) == 0}
+		c["spell"] = J{"sp": bs(pick(r, []string{"  ", "\n", "\t", " \n "})), "tight": r.Intn(3) == 0, "modorder": r.Intn(6)}
+	} else if r.Intn(4) == 0 {
+		c["spell"] = J{"modorder": 1 + r.Intn(5)}
 	}
 	if r.Intn(8) == 0 {
 		c["strict"] = true
